@@ -76,10 +76,47 @@ func stat(g *hx.Gen, dst *string, name string) {
 }
 
 // ptClasses / scClasses: one selector value per class of pointC / scalarC
-var ptClasses = []int{0, 2, 3, 4, 6, 7, 8, 9, 10}
+var ptClasses = []int{0, 2, 3, 4, 6, 7, 8, 9, 10, 16}
+
+// specials: every u the code or RFC 7748 could treat specially — the base point, the seven
+// low-order points, and 2^255-19 ± k
+func specials() [][]byte {
+	out := [][]byte{append([]byte{9}, make([]byte, 31)...)}
+	out = append(out, lowOrder...)
+	for k := int64(-3); k <= 3; k++ {
+		out = append(out, le32(new(big.Int).Add(p255, big.NewInt(k))))
+	}
+	return out
+}
+
+// neighbour returns a value next to a special point: one bit flipped, one byte replaced, or agreeing
+// with it only on the first / last k bytes (k = 1..31).
+func neighbour(g *hx.Gen, sp []byte) []byte {
+	r := g.R
+	b := bytes.Clone(sp)
+	switch r.Intn(4) {
+	case 0:
+		g.Stat("nb.bit-flip")
+		b[r.Intn(32)] ^= 1 << r.Intn(8)
+	case 1:
+		g.Stat("nb.byte-replaced")
+		i := r.Intn(32)
+		b[i] ^= byte(r.Range(1, 255))
+	case 2:
+		g.Stat("nb.prefix-agrees")
+		k := r.Range(1, 31)
+		copy(b[k:], r.Bytes(32-k))
+	default:
+		g.Stat("nb.suffix-agrees")
+		k := r.Range(1, 31)
+		copy(b[:32-k], r.Bytes(32-k))
+	}
+	return b
+}
+
 var scClasses = []int{0, 1, 2, 3, 4, 5}
 
-func point(g *hx.Gen) []byte { return pointC(g, g.R.Intn(16)) }
+func point(g *hx.Gen) []byte { return pointC(g, g.R.Intn(19)) } // 16: neighbour class, 10..15, 17, 18: random
 
 func pointC(g *hx.Gen, class int) []byte {
 	r := g.R
@@ -128,6 +165,9 @@ func pointC(g *hx.Gen, class int) []byte {
 			b[r.Intn(32)] &^= 1 << r.Intn(8)
 		}
 		return b
+	case 16:
+		stat(g, &lastPt, "pt.neighbour-of-special")
+		return neighbour(g, hx.Pick(r, specials()))
 	default:
 		b := r.Bytes(32)
 		if b[31]&0x80 != 0 {
@@ -195,6 +235,36 @@ func gen(g *hx.Gen) {
 	}
 	g.Emit("consts")
 	g.Stat("consts")
+	// neighbourhoods: all 256 single-bit neighbours of the base point, every byte of it replaced once,
+	// and for every other special point 12 single-bit and 6 single-byte neighbours
+	sp := specials()
+	for i := 0; i < 256; i++ {
+		u := bytes.Clone(sp[0])
+		u[i/8] ^= 1 << (i % 8)
+		g.Emit("x s=%s p=%s d=%s alias=%d", hx.Hex(scalarC(g, 5)), hx.Hex(u), hx.Hex(r.Bytes(32)), i%3)
+		g.Stat("nb.basepoint-bit")
+	}
+	for i := 0; i < 32; i++ {
+		u := bytes.Clone(sp[0])
+		u[i] ^= byte(r.Range(1, 255))
+		g.Emit("x s=%s p=%s d=%s alias=0", hx.Hex(scalar(g)), hx.Hex(u), hx.Hex(r.Bytes(32)))
+		g.Emit("iter k=%s u=%s n=2", hx.Hex(scalarC(g, 5)), hx.Hex(u))
+		g.Stat("nb.basepoint-byte")
+	}
+	for _, s0 := range sp[1:] {
+		for i := 0; i < 12; i++ {
+			u := bytes.Clone(s0)
+			u[r.Intn(32)] ^= 1 << r.Intn(8)
+			g.Emit("x s=%s p=%s d=%s alias=%d", hx.Hex(scalar(g)), hx.Hex(u), hx.Hex(r.Bytes(32)), i%3)
+			g.Stat("nb.special-bit")
+		}
+		for i := 0; i < 6; i++ {
+			u := bytes.Clone(s0)
+			u[r.Intn(32)] ^= byte(r.Range(1, 255))
+			g.Emit("x s=%s p=%s d=%s alias=0", hx.Hex(scalar(g)), hx.Hex(u), hx.Hex(r.Bytes(32)))
+			g.Stat("nb.special-byte")
+		}
+	}
 	emitX := func(s, u []byte, al int) {
 		g.Stat(fmt.Sprintf("x.alias%d", al))
 		g.Stat("pair." + lastSc + "+" + lastPt)
@@ -238,7 +308,7 @@ func gen(g *hx.Gen) {
 	g.Emit("x s=%s p=%s d=%s alias=0", hx.Hex(r.Bytes(32)), hx.Hex(append([]byte{9}, make([]byte, 31)...)), hx.Hex(r.Bytes(32)))
 	arms += 2
 	g.StatN(fmt.Sprintf("table.x25519-exits=%d/5", arms), 1)
-	n := g.Count(1300, 40000)
+	n := g.Count(1000, 40000)
 	for i := 0; i < n; i++ {
 		switch c := r.Intn(20); {
 		case c < 11:
